@@ -1071,5 +1071,62 @@ Theorem C11_wiring_Strand_table_proportion_stderrs :
 Proof. exact Proofs.GenAgreeWiring_C11.gen_wiring_Strand_table_proportion_stderrs. Qed.
 Print Assumptions C11_wiring_Strand_table_proportion_stderrs.
 
+Theorem C11_wiring_SecondOrderMeasures_column_proportion_variances :
+  wsrc_SecondOrderMeasures_column_proportion_variances = Some (WCall (WGlobal "_ProportionVariances")
+      [WSelf "_dimensions"; WVar "self"; WSelf "_cube_measures"; WAttr (WSelf "column_proportions")
+      "blocks"; WAttr (WSelf "column_weighted_bases") "blocks"] []).
+Proof. exact Proofs.GenAgreeWiring_C11.gen_wiring_SecondOrderMeasures_column_proportion_variances. Qed.
+Print Assumptions C11_wiring_SecondOrderMeasures_column_proportion_variances.
+
+Theorem C11_wiring_SecondOrderMeasures_column_std_err :
+  wsrc_SecondOrderMeasures_column_std_err = Some (WCall (WGlobal "_ColumnStandardError") [WSelf
+      "_dimensions"; WVar "self"; WSelf "_cube_measures"] []).
+Proof. exact Proofs.GenAgreeWiring_C11.gen_wiring_SecondOrderMeasures_column_std_err. Qed.
+Print Assumptions C11_wiring_SecondOrderMeasures_column_std_err.
+
+Theorem C11_wiring_SecondOrderMeasures_row_proportion_variances :
+  wsrc_SecondOrderMeasures_row_proportion_variances = Some (WCall (WGlobal "_ProportionVariances")
+      [WSelf "_dimensions"; WVar "self"; WSelf "_cube_measures"; WAttr (WSelf "row_proportions")
+      "blocks"; WAttr (WSelf "row_weighted_bases") "blocks"] []).
+Proof. exact Proofs.GenAgreeWiring_C11.gen_wiring_SecondOrderMeasures_row_proportion_variances. Qed.
+Print Assumptions C11_wiring_SecondOrderMeasures_row_proportion_variances.
+
+Theorem C11_wiring_SecondOrderMeasures_row_std_err :
+  wsrc_SecondOrderMeasures_row_std_err = Some (WCall (WGlobal "_RowStandardError") [WSelf
+      "_dimensions"; WVar "self"; WSelf "_cube_measures"] []).
+Proof. exact Proofs.GenAgreeWiring_C11.gen_wiring_SecondOrderMeasures_row_std_err. Qed.
+Print Assumptions C11_wiring_SecondOrderMeasures_row_std_err.
+
+Theorem C11_wiring_SecondOrderMeasures_table_proportion_variances :
+  wsrc_SecondOrderMeasures_table_proportion_variances = Some (WCall (WGlobal "_ProportionVariances")
+      [WSelf "_dimensions"; WVar "self"; WSelf "_cube_measures"; WAttr (WSelf "table_proportions")
+      "blocks"; WAttr (WSelf "table_weighted_bases") "blocks"] []).
+Proof. exact Proofs.GenAgreeWiring_C11.gen_wiring_SecondOrderMeasures_table_proportion_variances. Qed.
+Print Assumptions C11_wiring_SecondOrderMeasures_table_proportion_variances.
+
+Theorem C11_wiring_SecondOrderMeasures_table_std_err :
+  wsrc_SecondOrderMeasures_table_std_err = Some (WCall (WGlobal "_TableStandardError") [WSelf
+      "_dimensions"; WVar "self"; WSelf "_cube_measures"] []).
+Proof. exact Proofs.GenAgreeWiring_C11.gen_wiring_SecondOrderMeasures_table_std_err. Qed.
+Print Assumptions C11_wiring_SecondOrderMeasures_table_std_err.
+
+Theorem C11_wiring_StripeMeasures_table_proportion_stddevs :
+  wsrc_StripeMeasures_table_proportion_stddevs = Some (WCall (WGlobal "_TableProportionStddevs")
+      [WSelf "_rows_dimension"; WVar "self"; WSelf "_cube_measures"] []).
+Proof. exact Proofs.GenAgreeWiring_C11.gen_wiring_StripeMeasures_table_proportion_stddevs. Qed.
+Print Assumptions C11_wiring_StripeMeasures_table_proportion_stddevs.
+
+Theorem C11_wiring_StripeMeasures_table_proportion_stderrs :
+  wsrc_StripeMeasures_table_proportion_stderrs = Some (WCall (WGlobal "_TableProportionStderrs")
+      [WSelf "_rows_dimension"; WVar "self"; WSelf "_cube_measures"] []).
+Proof. exact Proofs.GenAgreeWiring_C11.gen_wiring_StripeMeasures_table_proportion_stderrs. Qed.
+Print Assumptions C11_wiring_StripeMeasures_table_proportion_stderrs.
+
+Theorem C11_wiring_StripeMeasures_table_proportion_variances :
+  wsrc_StripeMeasures_table_proportion_variances = Some (WCall (WGlobal "_TableProportionVariances")
+      [WSelf "_rows_dimension"; WVar "self"; WSelf "_cube_measures"] []).
+Proof. exact Proofs.GenAgreeWiring_C11.gen_wiring_StripeMeasures_table_proportion_variances. Qed.
+Print Assumptions C11_wiring_StripeMeasures_table_proportion_variances.
+
 End Wiring_C11.
 (* ---- WIRING-APPENDIX:END ---- *)
